@@ -134,7 +134,7 @@ pub fn run_c15(cfg: &Cfg) -> i32 {
             let _ = initial.apply(&payload);
         }
         let before = initial.clone();
-        let script = Script { running: e2e::running_config(&managed), faults: vec![], fail_connections: vec![], ephemeral_name: "bgpfu".into() };
+        let script = Script { running: e2e::running_config(&managed), faults: vec![], fail_connections: vec![], ephemeral_name: "bgpfu".into(), chunk: 0 };
         let (run, shared) = rt.block_on(async {
             let j = FakeJunos::start(script, initial).await.expect("fake junos");
             let run = e2e::run_agent(j.port, irr.port(), 0, &["-v"], &[], Duration::from_secs(25)).await;
@@ -218,7 +218,7 @@ pub fn run_l2(cfg: &Cfg, prop: L2) -> i32 {
         eprintln!("agent binary not built");
         return 2;
     }
-    let n = cfg.count(if prop == L2::C11 { 10 } else { 6 }, 150);
+    let n = cfg.count(match prop { L2::C11 => 10, L2::C03 => 16, _ => 6 }, 150);
     let rt = rt();
     for i in 0..n {
         let idx = cfg.case_index(i);
@@ -256,15 +256,15 @@ pub fn run_l2(cfg: &Cfg, prop: L2) -> i32 {
         let steps = 3;
         // managed: name -> expression text ("" = evaluable index into pool)
         let mut managed: BTreeMap<String, (String, Option<Expr>)> = BTreeMap::new();
-        let names = ["fltr-a", "fltr-b", "fltr-c", "fltr-d"];
+        let names = ["fltr-a", "fltr-b", "fltr-c", "fltr-d", "fltr-e", "fltr-f", "fltr-g"];
         let history_json: std::cell::RefCell<Vec<Value>> = std::cell::RefCell::new(Vec::new());
-        let script0 = Script { running: String::new(), faults: vec![], fail_connections: vec![], ephemeral_name: "bgpfu".into() };
+        let script0 = Script { running: String::new(), faults: vec![], fail_connections: vec![], ephemeral_name: "bgpfu".into(), chunk: 0 };
         let mut eph = Config::default();
         'steps: for step in 0..steps {
             // evolve the managed set
             for (k, name) in names.iter().enumerate() {
                 match managed.get(*name) {
-                    None if r.chance(1, 2) || (step == 0 && k < 2) => {
+                    None if r.chance(1, 2) || (step == 0 && (k < 2 || prop == L2::C03)) => {
                         let e = pool[r.below(pool.len())].clone();
                         managed.insert((*name).to_string(), (e.to_rpsl(), Some(e)));
                     }
@@ -288,7 +288,11 @@ pub fn run_l2(cfg: &Cfg, prop: L2) -> i32 {
                     r.shuffle(&mut victims);
                     // one or several policies share the SAME failing expression (e.g. the -in and
                     // -out policies of one customer): a failure must not be remembered as "empty"
-                    victims.truncate(r.range(1, 3.min(victims.len())));
+                    // usually one to three victims; sometimes every installed policy fails while the
+                    // IRR itself is reachable (mass withdrawal / partial outage)
+                    if !r.chance(1, 3) {
+                        victims.truncate(r.range(1, 3.min(victims.len())));
+                    }
                     let text = match r.below(3) {
                         0 => "AS-DOES-NOT-EXIST".to_string(),
                         1 => failing_set.clone().unwrap_or_else(|| "AS-DOES-NOT-EXIST".into()),
@@ -312,6 +316,8 @@ pub fn run_l2(cfg: &Cfg, prop: L2) -> i32 {
             let before = eph.clone();
             let mut script = script0.clone();
             script.running = e2e::running_config(&managed_list);
+            // the replies reach the agent in one piece, or cut into small TLS records (C06 at the agent level)
+            script.chunk = *r.pick(&[0usize, 0, 1, 5, 7, 64]);
             let irr_port = if irr_down { 1 } else { irr.port() }; // port 1: nothing listens (connection refused)
             let (run, log, after, committed, unmodelled) = rt.block_on(async {
                 let j = FakeJunos::start(script, before.clone()).await.expect("fake junos");
@@ -545,7 +551,7 @@ pub fn run_c20_agent(cfg: &Cfg) -> i32 {
         let to_file = r.chance(1, 3);
         let logfile = std::env::temp_dir().join(format!("vh-agent-log-{}-{idx}.log", std::process::id()));
         let managed = vec![("fltr-0".to_string(), "AS65000".to_string())];
-        let script = Script { running: e2e::running_config(&managed), faults: vec![], fail_connections: vec![outcome == "peer-drops"], ephemeral_name: "bgpfu".into() };
+        let script = Script { running: e2e::running_config(&managed), faults: vec![], fail_connections: vec![outcome == "peer-drops"], ephemeral_name: "bgpfu".into(), chunk: 0 };
         // unusual but plausible file layouts: bundles that contain the private key
         let bundle = std::env::temp_dir().join(format!("vh-bundle-{}-{idx}.pem", std::process::id()));
         let cat = |files: &[&str]| -> String {
@@ -651,7 +657,7 @@ fn run_daemon(k: f64, period: u64, outcomes: &[bool], signals: &[(f64, i32)], en
         return Err("dilate.so not built".into());
     }
     let fail: Vec<bool> = outcomes.iter().map(|s| !*s).chain(std::iter::repeat(true).take(64)).collect();
-    let script = Script { running: e2e::running_config(&[]), faults: vec![], fail_connections: fail, ephemeral_name: "bgpfu".into() };
+    let script = Script { running: e2e::running_config(&[]), faults: vec![], fail_connections: fail, ephemeral_name: "bgpfu".into(), chunk: 0 };
     let res = rt.block_on(async {
         let j = FakeJunos::start(script, Config::default()).await.map_err(|e| format!("junos: {e}"))?;
         let mut cmd = tokio::process::Command::new(e2e::agent_bin());
